@@ -130,6 +130,10 @@ def windowBoundOK (cfg : WinCfg) (reqs : List WinReq) (answers : List (Nat × Wi
   (answers.filterMap (admittedOf cfg reqs)).eraseDups.all fun kw =>
     decide (((answers.filterMap (admittedOf cfg reqs)).filter (· == kw)).length ≤ cfg.limit)
 
+/-- a rejected request is answered 429 *with* a `Retry-After`, and its handler does not run -/
+def rejectOK (answers : List (Nat × WinObs)) : Bool :=
+  answers.all fun a => a.2.status != 429 || (a.2.retryAfter.isSome && !a.2.ran)
+
 /-- a retry: request `j` is the next request on its key after request `i`, `i` was answered 429 with
     `Retry-After: R`, and `j` is issued at least `R` seconds later — then `j` must be admitted -/
 def retryOK (reqs : List WinReq) (answers : List (Nat × WinObs)) (retries : List (Nat × Nat)) : Bool :=
